@@ -30,7 +30,7 @@ def harnesses():
         out.append(H(f"c17_pkt_set_{n}", "C17", "quick" if n == "caplen" else "thorough", f"pkt::set::<4>({k})",
                      f"pkt_set_{n}", "16 header bytes + 4 captured bytes, assigned value any i64", 18))
     # ---- C21 (count of bytes returned / consumed; see pcapio.rs read_prefix for why not the values)
-    for (b, buf, tier, to, req) in ((2, 0, "quick", 600, True), (3, 0, "thorough", 900, True),
+    for (b, buf, tier, to, req) in ((1, 0, "quick", 600, True), (2, 0, "quick", 600, True), (3, 0, "thorough", 900, True),
                                     (4, 0, "thorough", 1800, False), (2, 2, "thorough", 1800, False)):
         out.append(H(f"c21_read_b{b}_buf{buf}", "C21", tier, f"read_prefix::<{b}>({buf})", "read_prefix",
                      f"content of symbolic length <= {b} with symbolic bytes, request n any usize (incl. usize::MAX), "
